@@ -213,8 +213,55 @@ def fault_pass(ctx):
     return ctx.judge_traces(trace, spec["props"], spec["invs"], label="faults")
 
 
+def race_pass(ctx):
+    """C17: the batch vectors (parallel pod operations with failing API calls) and the concurrent mode (four reconcilers,
+    kubelet, clock and user as goroutines on one store) run in a binary built with the race detector.  A race report is the
+    race detector's verdict, not the specification's (DESIGN section 7); the recorded states / convergence tail are judged by TLC."""
+    if ctx.pid != "C17":
+        return True
+    import subprocess
+    race = ctx.build(race=True)
+    env = dict(os.environ, GORACE="exitcode=66 halt_on_error=0")
+    # 1. batches under the race detector
+    spec = plan.B3["C17"][0]
+    vec = os.path.join(ctx.work, "race.vectors.ndjson")
+    cfg = "CONSTANTS\n  OutFile = \"%s\"\n  %s\n" % (vec, spec[ctx.tier])
+    ctx.tlc(spec["gen"] + ".tla", cfg, "gen-race", workers=1, timeout=600)
+    logs = []
+    def run_race(args, name):
+        p = subprocess.run([race] + args, cwd=ctx.work, env=env, stdout=subprocess.PIPE, stderr=subprocess.PIPE, text=True, timeout=3000)
+        n = p.stderr.count("WARNING: DATA RACE")
+        logs.append((name, p.returncode, n, p.stderr))
+        if p.returncode not in (0, 66):
+            raise vcheck.MachineryError("race binary failed (%d): %s" % (p.returncode, p.stderr[-2000:]))
+        return p.stdout, n
+    out, n1 = run_race(["vectors", "-in", vec, "-out", os.path.join(ctx.work, "race.trace.ndjson")], "batches")
+    os.remove(os.path.join(ctx.work, "race.trace.ndjson"))
+    # 2. concurrent mode
+    runs, steps = (6, 60) if ctx.tier == "quick" else (40, 150)
+    trace = os.path.join(ctx.work, "concurrent.ndjson")
+    out, n2 = run_race(["concurrent", "-n", str(runs), "-steps", str(steps), "-seed", str(ctx.seed), "-out", trace], "concurrent")
+    info = json.loads(out.strip().splitlines()[-1])
+    ctx.cov["passes"].append({"pass": "race-detector", "batch_races": n1, "concurrent_races": n2, **info})
+    ctx.cov["evaluations"] += info["runs"]
+    ctx.cov["traces_validated_against_impl"] += info["runs"]
+    ctx.cov["explanation"] = ("error accounting and interleaving safety are decided by TLA+ formulas on recorded executions (C17_Step, I_C17, P_C17c, C02 on the "
+                              "tails); absence of Go data races is observed by the race detector on exactly those executions (not expressible in TLA+)")
+    if n1 + n2 > 0:
+        os.makedirs(os.path.join(vcheck.VERIF, "replays"), exist_ok=True)
+        path = os.path.join(vcheck.VERIF, "replays", "C17-race-%d.log" % ctx.seed)
+        with open(path, "w") as f:
+            for name, rc, n, err in logs:
+                f.write("== %s rc=%d races=%d\n%s\n" % (name, rc, n, err[:20000]))
+        ctx.report_violation("race", path, "%d data race report(s) from the Go race detector (batches: %d, concurrent mode: %d)" % (n1 + n2, n1, n2))
+        return False
+    return ctx.judge_traces(trace, ["P_C17c", "P_C02", "P_C16"], ["I_C17"], label="concurrent")
+
+
 def run_property(ctx):
     ok = trace_pass(ctx)
+    if ok:
+        ok = race_pass(ctx)
     if ok:
         ok = fault_pass(ctx)
     if ok:
@@ -223,7 +270,7 @@ def run_property(ctx):
         ok = b3_pass(ctx)
     if ok:
         design_pass(ctx)
-    level = "fault_enumeration" if ctx.pid == "C11" else "model_checking"
+    level = {"C11": "fault_enumeration", "C17": "other"}.get(ctx.pid, "model_checking")
     ctx.write_evidence(level, rule=plan.RULES["default"])
     return ok
 
